@@ -33,7 +33,7 @@ def close(a, b, tol=RT):
 XS = np.unique(np.concatenate([np.linspace(-4, 4, 161), [0.0, 1e-9, -1e-9, 0.35, 0.5, 0.7, 1.5, 2.1, 4.5]]))
 STEPS = (0.1, 0.5, 1.0, 2.0)
 PAIRS = ["weightedL1_unit", "weightedMCP_unit", "enet_ratio1", "group_singletons", "row_onetask", "slope_constant", "mcp_gamma_inf",
-         "huber_delta_inf", "wquad_unit", "wquad_integer_replication", "cox_no_ties", "group_datafits", "multitask_onetask"]
+         "huber_delta_inf", "wquad_unit", "wquad_integer_replication", "cox_no_ties", "group_datafits", "multitask_onetask", "sparse_group_reductions"]
 
 
 def plan(tier, seed):
@@ -145,6 +145,38 @@ def run_pair(pair, ctx):
                     u, v = Rw.subdiff_distance(W, gr, np.arange(3)), Sc.subdiff_distance(np.array(w), gr.ravel(), np.arange(3))
                     if not close(u, v, 1e-9):
                         ctx.violation(site, "score_differs", dict(op="row_score", row=rs, w=list(w)), u, v, where=dict(pair=pair, row=rowname))
+        ctx.count("pairs_compared")
+    elif pair == "sparse_group_reductions":
+        # WeightedL1GroupL2 with zero group weights == weighted L1 ; with zero feature weights == weighted group L2 (any layout)
+        layouts = [c07.GROUPS6, c07.GROUPS6R, dict(grp_ptr=[0, 2, 4, 6], grp_indices=[3, 0, 4, 1, 5, 2]), dict(grp_ptr=[0, 1, 2, 3, 4, 5, 6], grp_indices=[5, 3, 1, 4, 2, 0])]
+        wf = [1.0, 2.0, 3.0, 0.5, 0.0, 1.5]
+        for a in (0.5, 1.5):
+            for lay in layouts:
+                G = len(lay["grp_ptr"]) - 1
+                groups = [lay["grp_indices"][lay["grp_ptr"][g]:lay["grp_ptr"][g + 1]] for g in range(G)]
+                SG1 = build.penalty(dict(name="WeightedL1GroupL2", alpha=a, weights_groups=[0.0] * G, weights_features=wf, **lay))
+                WL = build.penalty(dict(name="WeightedL1", alpha=a, weights=wf, positive=False))
+                wg = [1.0, 2.0, 0.5, 3.0, 1.5, 0.25][:G]
+                SG2 = build.penalty(dict(name="WeightedL1GroupL2", alpha=a, weights_groups=wg, weights_features=[0.0] * 6, **lay))
+                WG = build.penalty(dict(name="WeightedGroupL2", alpha=a, weights=wg, positive=False, **lay))
+                for g, idx in enumerate(groups):
+                    for st in STEPS:
+                        for x in c07.BLOCK_VECS[len(idx)]:
+                            u = SG1.prox_1group(x.copy(), float(st), g)
+                            v = np.array([WL.prox_1d(float(x[k]), float(st), int(j)) for k, j in enumerate(idx)])
+                            ctx.obs(u, nontrivial=bool(np.any(u)))
+                            if not close(u, v):
+                                ctx.violation(site, "prox_differs", dict(op="sparse_group", alpha=a, lay=lay, g=g, s=st, x=x.tolist(), which="zero group weights vs WeightedL1"),
+                                              u.tolist(), v.tolist(), where=dict(pair=pair))
+                            u2, v2 = SG2.prox_1group(x.copy(), float(st), g), WG.prox_1group(x.copy(), float(st), g)
+                            if not close(u2, v2):
+                                ctx.violation(site, "prox_differs", dict(op="sparse_group", alpha=a, lay=lay, g=g, s=st, x=x.tolist(), which="zero feature weights vs WeightedGroupL2"),
+                                              u2.tolist(), v2.tolist(), where=dict(pair=pair))
+                for w in itertools.product((-2.0, 0.0, 0.5), repeat=6):
+                    w = np.array(w)
+                    if not close(SG1.value(w), WL.value(w)) or not close(SG2.value(w), WG.value(w)):
+                        ctx.violation(site, "value_differs", dict(op="sparse_group_value", alpha=a, lay=lay, w=w.tolist()), [SG1.value(w), SG2.value(w)], [WL.value(w), WG.value(w)],
+                                      where=dict(pair=pair))
         ctx.count("pairs_compared")
     elif pair == "slope_constant":
         for a in (0.5, 1.5):
@@ -397,6 +429,7 @@ def replay(params):
     if pair is None:
         pair = {"singleton": "group_singletons", "singleton_score": "group_singletons", "singleton_value": "group_singletons", "row": "row_onetask",
                 "row_value": "row_onetask", "row_score": "row_onetask", "slope": "slope_constant", "slope_value": "slope_constant",
+                "sparse_group": "sparse_group_reductions", "sparse_group_value": "sparse_group_reductions",
                 "multitask_onetask": "multitask_onetask", "cox": "cox_no_ties"}[params["op"]]
     run_pair(pair, ctx)
     kinds = sorted({v["kind"] for v in ctx.viol.values()})
@@ -404,7 +437,7 @@ def replay(params):
 
 
 def describe(tier, agg):
-    rule = ("13 component-level reductions (unit weights vs unweighted L1 / MCP, l1_ratio = 1 vs L1, singleton groups vs weighted L1, one-task "
+    rule = ("14 component-level reductions (sparse-group penalty with zero group / feature weights vs weighted L1 / group L2 on 4 layouts, unit weights vs unweighted L1 / MCP, l1_ratio = 1 vs L1, singleton groups vs weighted L1, one-task "
             "row penalties vs their scalar counterpart, constant SLOPE vs L1, gamma = 2^20 MCP vs L1, delta = 2^20 Huber vs quadratic, unit "
             "sample weights vs quadratic, integer sample weights vs replicated rows, Efron vs Breslow on all tie-free survival patterns of 4 "
             "samples, group datafits vs plain ones, one-task multitask datafit vs quadratic), each on the prox / score / value / accessor "
